@@ -123,3 +123,36 @@ M("revert-D7-gpo-rollover", "PyXAB/algos/GPO.py",
                 self.goodx = self.V_x[maxind]
 """, """        self.counter += 1
 """)])
+
+# ---- optimistic index (C05) and growth (C06)
+M("hoo-ucb-constant", "PyXAB/algos/HOO.py", "UCB = math.sqrt(2 * math.log(rounds) / self.visited_times)",
+  "UCB = math.sqrt(math.log(rounds) / self.visited_times)", ["C05"])
+M("hoo-depth-exponent", "PyXAB/algos/HOO.py", "self.u_value = self.mean_reward + UCB + nu * (rho ** self.depth)",
+  "self.u_value = self.mean_reward + UCB + nu * (rho ** (self.depth + 1))", ["C05"])
+M("hoo-min-max-swap", "PyXAB/algos/HOO.py", "node.update_b_value(np.minimum(node.get_u_value(), tempB))",
+  "node.update_b_value(np.maximum(node.get_u_value(), tempB))", ["C05"])
+M("hoo-select-min-B", "PyXAB/algos/HOO.py", "if child.get_b_value() >= maxchild.get_b_value():",
+  "if child.get_b_value() <= maxchild.get_b_value():", ["C05"])
+M("hoo-stale-backprop-deep", "PyXAB/algos/HOO.py", "for i in range(1, self.partition.get_depth() + 1):\n            layer = nodes[-i]",
+  "for i in range(1, min(self.partition.get_depth(), 4) + 1):\n            layer = nodes[-i]", ["C05"])
+M("hct-refresh-removed", "PyXAB/algos/HCT.py", "if self.iteration == compute_t_plus(self.iteration):", "if False:", ["C05"])
+M("hct-width-sign", "PyXAB/algos/HCT.py", "                + math.sqrt(c ** 2 * math.log(1 / delta_tilde) / self.visited_times)",
+  "                - math.sqrt(c ** 2 * math.log(1 / delta_tilde) / self.visited_times)", ["C05"])
+M("hct-tau-exponent", "PyXAB/algos/HCT.py", "* self.rho ** (-2 * i)", "* self.rho ** (-1 * i)", ["C05", "C06"])
+M("hct-traverse-gt", "PyXAB/algos/HCT.py", "curr_node.get_visited_times() >= self.tau_h[curr_node.get_depth()]",
+  "curr_node.get_visited_times() > self.tau_h[curr_node.get_depth()]", ["C05"])
+M("hct-no-backprop-after-pull", "PyXAB/algos/HCT.py",
+  "            nu=self.nu, rho=self.rho, c=self.c, delta_tilde=delta_tilde\n        )\n\n        self.updateBackwardTree()",
+  "            nu=self.nu, rho=self.rho, c=self.c, delta_tilde=delta_tilde\n        )\n\n        end_node.update_b_value(end_node.get_u_value())", ["C05"])
+M("hct-expand-gt", "PyXAB/algos/HCT.py", "and end_node.get_visited_times() >= self.tau_h[en_depth]",
+  "and end_node.get_visited_times() > self.tau_h[en_depth]", ["C06"])
+M("vhct-bernstein-constant", "PyXAB/algos/VHCT.py", "                + 3 * bound * c ** 2 * math.log(1 / delta_tilde) / self.visited_times",
+  "                + 2 * bound * c ** 2 * math.log(1 / delta_tilde) / self.visited_times", ["C05"])
+M("vhct-tau-constant", "PyXAB/algos/VHCT.py", "                + 3 * bound * nu * rho ** self.get_depth()\n", "                + 2 * bound * nu * rho ** self.get_depth()\n", ["C05", "C06"])
+M("vhct-width-no-variance", "PyXAB/algos/VHCT.py", "                    * self.variance\n                    * math.log(1 / delta_tilde)",
+  "                    * math.log(1 / delta_tilde)", ["C05"])
+M("hoo-truncation-ignored", "PyXAB/algos/HOO.py", "        if path[-1].depth <= np.ceil(", "        if True or path[-1].depth <= np.ceil(", ["C06"])
+M("hoo-truncation-off-by-one", "PyXAB/algos/HOO.py", "        if path[-1].depth <= np.ceil(", "        if path[-1].depth < np.ceil(", ["C06"])
+M("hoo-truncation-log-base", "PyXAB/algos/HOO.py", "(np.log(self.rounds) / 2 - np.log(1 / self.nu)) / np.log(1 / self.rho)",
+  "(np.log2(self.rounds) / 2 - np.log(1 / self.nu)) / np.log(1 / self.rho)", ["C06"])
+M("hct-tplus-floor", "PyXAB/algos/HCT.py", "return np.power(2, np.ceil(np.log(x) / np.log(2)))", "return np.power(2, np.floor(np.log(x) / np.log(2)))", ["C05", "C06"])
